@@ -284,7 +284,7 @@ def _verify_function(qualname: str, timeout_ms=20000, cross_check=False, only=No
     rep = FunctionReport(qualname)
     c = registry.CONTRACTS[qualname]
     try:
-        fi = extract.find_function(qualname)
+        fi = extract.find_function(c.source or qualname)
         rep.info = fi.describe()
     except extract.ExtractError as e:
         rep.status, rep.reason = "undecided", f"extraction: {e}"
